@@ -4,6 +4,7 @@ C01 line-protocol driver (grammar: see Proto.lean). Answer: for every operation 
 joined by spaces; `bad-op` for anything malformed.
 -/
 import CaddyModel.C01.Proto
+import CaddyModel.C01.StdApps
 
 namespace CaddyModel.C01
 open CaddyModel.Lifecycle CaddyModel.Lifecycle.Proto
@@ -12,13 +13,18 @@ def showStep (p : Res × State) : String :=
   showRes p.1 ++ "|" ++ (match p.2.raw with | some c => showCfg c | none => "null") ++ "|" ++ showSocks p.2.socks ++ "|" ++ showPool p.2.mpool ++ "|" ++ toString p.2.dstor ++ "|" ++ toString p.2.dlogger
 
 def handle (fs : List String) : String :=
+  match fs with
+  | "E" :: _ => Std.handle fs   -- the standard apps on the load path (StdApps.lean)
+  | _ =>
   match parseCase fs with
   | none => "bad-op"
   | some ops => " ".intercalate ((trace State.init ops).map showStep)
 
-/-- counter-example lines replayed on the implementation on every run: none — every C01 statement
-    is proved at full strength for the code as it is now. (The former F2, F21 and F22 witnesses are
+/-- counter-example lines replayed on the implementation on every run (proved in StdProps.lean:
+    stopped_configs_certificate_served_by_next_full_fails): a configuration whose tls app loaded a
+    certificate for subject 0 is stopped with caddy.Stop, the next configuration loads subject 1 only —
+    and runs with subject 0's certificate in the cache. (The former F2, F21 and F22 witnesses are
     regression cases in corpus/C01.) -/
-def witnessLines : List String := []
+def witnessLines : List String := ["E L00=0 S L00=1"]
 
 end CaddyModel.C01
